@@ -27,6 +27,11 @@ type yGrammar struct {
 	Term  map[string]bool
 }
 
+// IsTerminal: declared by %token, or a character literal.
+func (g *yGrammar) IsTerminal(sym string) bool {
+	return g.Term[sym] || strings.HasPrefix(sym, "'")
+}
+
 func (r *yRule) String() string {
 	return fmt.Sprintf("%s: %s", r.LHS, strings.Join(r.RHS, " "))
 }
